@@ -179,3 +179,250 @@ example : topicRef (assignmentsFromMap [([116, 98], [2, 0, 2]), ([116], []), ([8
 example : assignmentsFromMap [([116, 98], [2, 0, 2]), ([116], []), ([84], [1])] = [([84], [1]), ([116], []), ([116, 98], [0, 2])] := by decide
 
 end Kafka.Props.C19
+
+/-! ### completeness of the look-up: an assigned topic is always found -/
+namespace Kafka.Props.C19
+open Kafka Kafka.Model
+
+theorem bytesLt_irrefl : ∀ a : Bytes, bytesLt a a = false := by
+  intro a
+  induction a with
+  | nil => rfl
+  | cons x r ih => simp [bytesLt, ih]
+
+theorem bytesLt_trans : ∀ a b c : Bytes, bytesLt a b = true → bytesLt b c = true → bytesLt a c = true := by
+  intro a
+  induction a with
+  | nil =>
+    intro b c h1 h2
+    cases b with
+    | nil => simp [bytesLt] at h1
+    | cons y s =>
+      cases c with
+      | nil => simp [bytesLt] at h2
+      | cons z u => simp [bytesLt]
+  | cons x r ih =>
+    intro b c h1 h2
+    cases b with
+    | nil => simp [bytesLt] at h1
+    | cons y s =>
+      cases c with
+      | nil => simp [bytesLt] at h2
+      | cons z u =>
+        simp only [bytesLt] at h1 h2 ⊢
+        by_cases hxy : x < y
+        · by_cases hyz : y < z
+          · have : x < z := UInt8.lt_trans hxy hyz
+            simp [this]
+          · simp only [hyz, if_false] at h2
+            by_cases hzy : z < y
+            · simp [hzy] at h2
+            · simp only [hzy, if_false] at h2
+              have : y = z := UInt8.le_antisymm (UInt8.not_lt.mp hzy) (UInt8.not_lt.mp hyz)
+              subst this
+              simp [hxy]
+        · simp only [hxy, if_false] at h1
+          by_cases hyx : y < x
+          · simp [hyx] at h1
+          · simp only [hyx, if_false] at h1
+            have : x = y := UInt8.le_antisymm (UInt8.not_lt.mp hyx) (UInt8.not_lt.mp hxy)
+            subst this
+            by_cases hxz : x < z
+            · simp [hxz]
+            · simp only [hxz, if_false] at h2 ⊢
+              by_cases hzx : z < x
+              · simp [hzx] at h2
+              · simp only [hzx, if_false] at h2 ⊢
+                exact ih s u h1 h2
+
+theorem bytesLt_total : ∀ a b : Bytes, bytesLt a b = false → a ≠ b → bytesLt b a = true := by
+  intro a
+  induction a with
+  | nil =>
+    intro b h hne
+    cases b with
+    | nil => exact absurd rfl hne
+    | cons y s => simp [bytesLt] at h
+  | cons x r ih =>
+    intro b h hne
+    cases b with
+    | nil => simp [bytesLt]
+    | cons y s =>
+      simp only [bytesLt] at h ⊢
+      by_cases hxy : x < y
+      · simp [hxy] at h
+      · simp only [hxy, if_false] at h
+        by_cases hyx : y < x
+        · simp [hyx]
+        · simp only [hyx, if_false] at h ⊢
+          have : x = y := UInt8.le_antisymm (UInt8.not_lt.mp hyx) (UInt8.not_lt.mp hxy)
+          subst this
+          simp only [hxy, if_false]
+          exact ih s h (fun heq => hne (by rw [heq]))
+
+/-- the table is strictly ascending by topic -/
+def SortedBy (as : List (Bytes × List Int)) : Prop := as.Pairwise fun x y => bytesLt x.1 y.1 = true
+
+/-- **the search finds every entry of a sorted table**: with the window containing index `i` and fuel for its width -/
+theorem bsearch_complete (as : List (Bytes × List Int)) (hs : SortedBy as) (t : Bytes) (i : Nat) (hi : i < as.length)
+    (ht : (as[i]'hi).1 = t) :
+    ∀ (fuel lo hi' : Nat), lo ≤ i → i < hi' → hi' ≤ as.length → hi' - lo < fuel → bsearch as.toArray t fuel lo hi' = some i := by
+  have hlt : ∀ a b (ha : a < as.length) (hb : b < as.length), a < b → bytesLt (as[a]'ha).1 (as[b]'hb).1 = true := by
+    intro a b ha hb hab
+    exact (List.pairwise_iff_getElem.mp hs) a b ha hb hab
+  intro fuel
+  induction fuel with
+  | zero => intro lo hi' _ _ _ h; omega
+  | succ f ih =>
+    intro lo hi' hlo hhi hle hf
+    simp only [bsearch]
+    have hnot : ¬ lo ≥ hi' := by omega
+    simp only [hnot, if_false]
+    have hmid : lo + (hi' - lo) / 2 < as.length := by omega
+    have hget : (as.toArray[lo + (hi' - lo) / 2]!) = as[lo + (hi' - lo) / 2]'hmid := by
+      simp [hmid]
+    simp only [hget]
+    by_cases heq : (as[lo + (hi' - lo) / 2]'hmid).1 = t
+    · -- equal keys sit at equal indices in a strictly sorted table
+      simp only [heq, if_true]
+      by_cases h1 : lo + (hi' - lo) / 2 < i
+      · have := hlt _ _ hmid hi h1
+        rw [heq, ht, bytesLt_irrefl] at this
+        cases this
+      · by_cases h2 : i < lo + (hi' - lo) / 2
+        · have := hlt _ _ hi hmid h2
+          rw [heq, ht, bytesLt_irrefl] at this
+          cases this
+        · congr 1
+          omega
+    · simp only [heq, if_false]
+      by_cases hb : bytesLt (as[lo + (hi' - lo) / 2]'hmid).1 t = true
+      · simp only [hb, if_true]
+        -- mid's key is below t: i lies right of mid
+        have : lo + (hi' - lo) / 2 < i := by
+          by_cases h2 : i < lo + (hi' - lo) / 2
+          · have h3 := hlt _ _ hi hmid h2
+            rw [ht] at h3
+            have := bytesLt_trans _ _ _ h3 hb
+            rw [bytesLt_irrefl] at this
+            cases this
+          · have : i ≠ lo + (hi' - lo) / 2 := by
+              intro h3
+              apply heq
+              subst h3
+              exact ht
+            omega
+        exact ih _ _ (by omega) hhi hle (by omega)
+      · simp only [hb, Bool.false_eq_true, if_false]
+        -- mid's key is above t: i lies left of mid
+        have hb' : bytesLt (as[lo + (hi' - lo) / 2]'hmid).1 t = false := by simpa using hb
+        have hgt := bytesLt_total _ _ hb' heq
+        have : i < lo + (hi' - lo) / 2 := by
+          by_cases h2 : lo + (hi' - lo) / 2 < i
+          · have h3 := hlt _ _ hmid hi h2
+            rw [ht] at h3
+            rw [h3] at hb'
+            cases hb'
+          · have : i ≠ lo + (hi' - lo) / 2 := by
+              intro h3
+              apply heq
+              subst h3
+              exact ht
+            omega
+        exact ih _ _ hlo this (by omega) (by omega)
+
+/-- **look-up completeness**: in a table that is strictly ascending by topic, the entry of an assigned topic is found, at
+    its own index (so marking, seeking and fetching an assigned topic never fail for want of the look-up) -/
+theorem C19_lookup_complete (as : List (Bytes × List Int)) (hs : SortedBy as) (i : Nat) (hi : i < as.length) :
+    topicRef as (as[i]'hi).1 = some i := by
+  unfold topicRef
+  exact bsearch_complete as hs _ i hi rfl _ 0 as.length (Nat.zero_le _) hi (Nat.le_refl _) (by omega)
+
+theorem insertByTopic_sorted (x : Bytes × List Int) : ∀ (as : List (Bytes × List Int)), SortedBy as →
+    (∀ y ∈ as, y.1 ≠ x.1) → SortedBy (insertByTopic x as) ∧ ∀ z ∈ insertByTopic x as, z = x ∨ z ∈ as := by
+  intro as
+  induction as with
+  | nil => intro _ _; simp [insertByTopic, SortedBy]
+  | cons y r ih =>
+    intro hs hne
+    have hs' := (List.pairwise_cons.mp hs).2
+    have hy := (List.pairwise_cons.mp hs).1
+    simp only [insertByTopic]
+    by_cases hle : bytesLe x.1 y.1 = true
+    · simp only [hle, if_true]
+      -- x ≤ y and x ≠ y: x < y, hence below everything
+      have hxy : bytesLt x.1 y.1 = true := by
+        unfold bytesLe at hle
+        have : bytesLt y.1 x.1 = false := by simpa using hle
+        exact bytesLt_total _ _ this (hne y (by simp))
+      constructor
+      · unfold SortedBy
+        rw [List.pairwise_cons]
+        refine ⟨?_, hs⟩
+        intro z hz
+        rcases List.mem_cons.mp hz with rfl | hz
+        · exact hxy
+        · exact bytesLt_trans _ _ _ hxy (hy z hz)
+      · intro z hz
+        rcases List.mem_cons.mp hz with rfl | hz
+        · exact Or.inl rfl
+        · exact Or.inr hz
+    · simp only [hle, Bool.false_eq_true, if_false]
+      have hyx : bytesLt y.1 x.1 = true := by
+        unfold bytesLe at hle
+        simpa using hle
+      obtain ⟨h1, h2⟩ := ih hs' (fun z hz => hne z (by simp [hz]))
+      constructor
+      · unfold SortedBy
+        rw [List.pairwise_cons]
+        refine ⟨?_, h1⟩
+        intro z hz
+        rcases h2 z hz with rfl | hz
+        · exact hyx
+        · exact hy z hz
+      · intro z hz
+        rcases List.mem_cons.mp hz with rfl | hz
+        · exact Or.inr (by simp)
+        · rcases h2 z hz with h | h
+          · exact Or.inl h
+          · exact Or.inr (by simp [h])
+
+/-- the table built from an assignment map with distinct topics is strictly ascending -/
+theorem assignmentsFromMap_sorted : ∀ (m : List (Bytes × List Int)), (m.map (·.1)).Nodup →
+    SortedBy (assignmentsFromMap m) ∧ ∀ z ∈ assignmentsFromMap m, z.1 ∈ m.map (·.1) := by
+  intro m
+  induction m with
+  | nil => intro _; simp [assignmentsFromMap, SortedBy]
+  | cons x r ih =>
+    intro hnd
+    obtain ⟨t, ps⟩ := x
+    simp only [List.map_cons, List.nodup_cons] at hnd
+    obtain ⟨h1, h2⟩ := ih hnd.2
+    unfold assignmentsFromMap at h1 h2 ⊢
+    simp only [List.map_cons, List.foldr_cons]
+    obtain ⟨h3, h4⟩ := insertByTopic_sorted (t, dedupAdj (sortInts ps)) _ h1 (by
+      intro y hy heq
+      have := h2 y hy
+      simp only [] at heq
+      rw [heq] at this
+      exact hnd.1 this)
+    refine ⟨h3, ?_⟩
+    intro z hz
+    rcases h4 z hz with rfl | hz'
+    · simp
+    · have := h2 z hz'
+      simp at this ⊢
+      exact Or.inr this
+
+end Kafka.Props.C19
+
+namespace Kafka.Props.C19
+open Kafka Kafka.Model
+
+/-- **the consumer's table is searchable**: built from an assignment map with distinct topics (what `assignMap` produces:
+    one entry per topic, the later call winning), the table is strictly ascending — so every assigned topic is found -/
+theorem C19_table_sorted (m : List (Bytes × List Int)) (h : (m.map (·.1)).Nodup) (i : Nat) (hi : i < (assignmentsFromMap m).length) :
+    topicRef (assignmentsFromMap m) ((assignmentsFromMap m)[i]'hi).1 = some i :=
+  C19_lookup_complete _ (assignmentsFromMap_sorted m h).1 i hi
+
+end Kafka.Props.C19
